@@ -50,6 +50,7 @@ type tr2 struct {
 	helperDefs []string
 	file       *ast.File         // the file being translated (helpers and constants are looked up in it)
 	helpers    map[string]string // package-level helper functions translated on demand: Go name → result kind
+	aliases    map[string]bool   // slice variables that share a backing array with another name
 	joinN      int
 	hasFuel    bool   // the function takes a fuel parameter (it has a `for cond` loop or calls traverse)
 	retType    string // Lean type of the function's result
@@ -700,6 +701,15 @@ func hasTerminator(stmts []ast.Stmt) bool {
 					if _, ok := x.Rhs[0].(*ast.SliceExpr); ok {
 						found = true
 					}
+					// a call of a translated function that is itself partial (it slices)
+					ast.Inspect(x.Rhs[0], func(m ast.Node) bool {
+						if c, ok := m.(*ast.CallExpr); ok {
+							if id, ok := c.Fun.(*ast.Ident); ok && (id.Name == "entryLastN" || id.Name == "entrySliceRange") {
+								found = true
+							}
+						}
+						return true
+					})
 				}
 			}
 			return true
@@ -894,7 +904,7 @@ func (t *tr2) block(stmts []ast.Stmt, fall string, inLoop bool) string {
 		}
 		if len(x.Results) == 2 && !inLoop && t.partial && isNil(x.Results[1]) {
 			if u, ok := x.Results[0].(*ast.UnaryExpr); ok && u.Op == token.AND {
-				if cl, ok := u.X.(*ast.CompositeLit); ok && src(t.fset, cl.Type) == "Snapshot" && len(cl.Elts) == 2 {
+				if cl, ok := u.X.(*ast.CompositeLit); ok && src(t.fset, cl.Type) == "Snapshot" && (len(cl.Elts) == 2 || len(cl.Elts) == 3) {
 					f := map[string]string{}
 					for _, el := range cl.Elts {
 						if kv, ok := el.(*ast.KeyValueExpr); ok {
@@ -902,6 +912,12 @@ func (t *tr2) block(stmts []ast.Stmt, fall string, inLoop bool) string {
 						}
 					}
 					v := f["Values"]
+					if cl2 := len(cl.Elts); cl2 == 3 || cl2 == 2 {
+						if v != "" && t.kinds[v] == "ents" && f["ID"] == "jsonLog.ID" && (f["Heads"] == "jsonLog.Heads" || cl2 == 2) {
+							// id and heads are handed through from the caller's manifest: the entries are the result
+							return "(some " + leanName(v) + ")"
+						}
+					}
 					if v != "" && t.kinds[v] == "ents" && f["ID"] == v+"[len("+v+")-1].GetLogID()" {
 						// indexing the last element panics on an empty slice: `none`
 						return "(match " + leanName(v) + ".getLast? with | none => none | some last__ => (some (last__.logId, " + leanName(v) + ")))"
@@ -1052,6 +1068,13 @@ func (t *tr2) block(stmts []ast.Stmt, fall string, inLoop bool) string {
 				}
 			}
 			return t.fail(st, "Set on something that is not an ordered map of the subset")
+		}
+		if sc := selChain(c.Fun); sc == "sorting.Sort" || sc == "sorting.Reverse" || sc == "sort.SliceStable" {
+			for _, a := range c.Args {
+				if id, ok := a.(*ast.Ident); ok && t.aliases[id.Name] {
+					return t.fail(st, "in-place mutation of a slice that has another name (aliasing is not modelled)")
+				}
+			}
 		}
 		switch selChain(c.Fun) {
 		case "sorting.Sort":
@@ -1290,6 +1313,18 @@ func (t *tr2) assign(x *ast.AssignStmt, rest []ast.Stmt, fall string, inLoop boo
 		}
 		return t.fail(x, "clock assignment")
 	}
+	// x = entryLastN(xs, n): the translated entryLastN is partial (its slice expression)
+	if c, isCall := x.Rhs[0].(*ast.CallExpr); isCall && src(t.fset, c.Fun) == "entryLastN" && len(c.Args) == 2 && t.partial {
+		if id, ok := x.Lhs[0].(*ast.Ident); ok {
+			a0, k0 := t.expr(c.Args[0])
+			a1, k1 := t.expr(c.Args[1])
+			if k0 == "ents" && k1 == "int" && (x.Tok == token.DEFINE || t.kinds[id.Name] == "ents") {
+				t.kinds[id.Name] = "ents"
+				return "(match (entryLastN " + a0 + " " + a1 + ") with | none => none | some " + leanName(id.Name) + " => " + cont() + ")"
+			}
+		}
+		return t.fail(x, "entryLastN call")
+	}
 	// x := append(A, entrySliceRange(xs, a, b)...): the translated entrySliceRange is partial (its slice expression)
 	if ap, isCall := x.Rhs[0].(*ast.CallExpr); isCall && src(t.fset, ap.Fun) == "append" && len(ap.Args) == 2 && ap.Ellipsis != token.NoPos && t.partial {
 		if inner, ok := ap.Args[1].(*ast.CallExpr); ok && src(t.fset, inner.Fun) == "entrySliceRange" && len(inner.Args) == 3 {
@@ -1345,6 +1380,14 @@ func (t *tr2) assign(x *ast.AssignStmt, rest []ast.Stmt, fall string, inLoop boo
 			return "(let " + leanName(id.Name) + " := (" + leanName(id.Name) + " " + op + " " + v + "); " + cont() + ")"
 		}
 		return t.fail(x, "operator assignment")
+	}
+	if rid, isIdent := x.Rhs[0].(*ast.Ident); isIdent && (kv == "ents" || kv == "cids") && (x.Tok == token.DEFINE || x.Tok == token.ASSIGN) {
+		// two names for one backing array: an in-place mutation through either is then rejected
+		if t.aliases == nil {
+			t.aliases = map[string]bool{}
+		}
+		t.aliases[id.Name] = true
+		t.aliases[rid.Name] = true
 	}
 	switch x.Tok {
 	case token.DEFINE:
@@ -2007,6 +2050,7 @@ func (t *tr2) funcDecl(fd *ast.FuncDecl, name string) string {
 	var ps, names []string
 	t.noResult = ""
 	t.emitter = ""
+	t.aliases = nil
 	t.monadic = 0
 	t.joinN = 0
 	t.retType = ""
@@ -2429,6 +2473,40 @@ func (t *tr2) fromEntryDecls(f *ast.File) string {
 	return defA + "\n" + defB
 }
 
+// fromJSONDecl: what fromJSON (log_io.go) makes of the fetched entries (a parameter): sort by clock, trim
+func (t *tr2) fromJSONDecl(f *ast.File) string {
+	fd := findFunc(f, "fromJSON")
+	if fd == nil || fd.Body == nil {
+		return t.fail(&ast.BlockStmt{}, "fromJSON not found")
+	}
+	t.prepare(fd)
+	iFetch := -1
+	for i, st := range fd.Body.List {
+		if strings.Contains(src(t.fset, st), "FetchParallel") {
+			iFetch = i
+		}
+	}
+	if iFetch < 0 {
+		return t.fail(fd, "shape of fromJSON")
+	}
+	if as, ok := fd.Body.List[iFetch].(*ast.AssignStmt); !ok || len(as.Lhs) != 1 || src(t.fset, as.Lhs[0]) != "entries" {
+		return t.fail(fd.Body.List[iFetch], "the fetch result is not `entries`")
+	}
+	t.kinds = map[string]string{"options": "fetchopts", "entries": "ents"}
+	t.subst = map[string]string{}
+	t.loops, t.helperDefs, t.aliases = nil, nil, nil
+	t.fn, t.recv, t.brk, t.noResult, t.emitter = "fromJSONTail", "", "", "", ""
+	t.monadic, t.joinN, t.hasFuel, t.usesFuel = 0, 0, false, false
+	t.retType = "Option (List Entry)"
+	t.partial = true
+	t.params = []string{"(optLength : Option Int)", "(entries : List Entry)"}
+	t.pnames = []string{"optLength", "entries"}
+	b := strings.Join(strings.Fields(t.block(fd.Body.List[iFetch+1:], "", false)), " ")
+	out := strings.Join(t.loops, "\n") + "def fromJSONTail (optLength : Option Int) (entries : List Entry) : Option (List Entry) :=\n  " + b + "\n"
+	t.loops = nil
+	return out
+}
+
 func findMethod(f *ast.File, name string) *ast.FuncDecl {
 	for _, d := range f.Decls {
 		if fd, ok := d.(*ast.FuncDecl); ok && fd.Name.Name == name && fd.Recv != nil {
@@ -2450,7 +2528,7 @@ func renderSlices(repo string) map[string]string {
 		jobs []job
 	}{
 		{"Misc", []job{{"log.go", []string{"maxClockTimeForEntries"}}, {"entry/entry.go", []string{"uniqueCIDs"}}}},
-		{"Loaders", []job{{"entry/utils.go", []string{"Difference"}}, {"log_io.go", []string{"entryLastN", "entryLastNKeeping", "entrySliceRange", "#fromEntry"}}}},
+		{"Loaders", []job{{"entry/utils.go", []string{"Difference"}}, {"log_io.go", []string{"entryLastN", "entryLastNKeeping", "entrySliceRange", "#fromEntry", "#fromJSON"}}}},
 		{"Heads", []job{{"entry/utils.go", []string{"FindHeads"}}}},
 		{"Traverse", []job{{"log.go", []string{"traverse"}}}},
 		{"Join", []job{{"log.go", []string{"difference"}}}},
@@ -2483,6 +2561,10 @@ func renderSlices(repo string) map[string]string {
 			for _, n := range j.names {
 				if n == "#fromEntry" {
 					fmt.Fprintf(&b, "/-- `fromEntry` (%s): the fetch length, and what is made of the fetched entries -/\n%s\n", j.file, t.fromEntryDecls(f))
+					continue
+				}
+				if n == "#fromJSON" {
+					fmt.Fprintf(&b, "/-- `fromJSON` (%s): what is made of the fetched entries -/\n%s\n", j.file, t.fromJSONDecl(f))
 					continue
 				}
 				if n == "#admission" {
